@@ -19,6 +19,7 @@ import (
 	"reflect"
 	"runtime"
 	"sort"
+	"strings"
 	"sync"
 	"time"
 	"unsafe"
@@ -130,17 +131,34 @@ func park(k Kind, site int32, addr uintptr, arg uint64) uint64 {
 	return parkMsg(Msg{Kind: k, Site: site, Addr: addr, Arg: arg})
 }
 
-func parkMsg(m Msg) uint64 {
+func parkMsg(m Msg) (v uint64) {
 	s := cur
 	if s == nil {
 		return 0
 	}
 	raceDisable()
+	// A goroutine outside the synctest bubble (started from init(), a finalizer) cannot talk to
+	// the scheduler: the runtime panics on the send. Such a goroutine simply runs unscheduled.
+	defer func() {
+		if r := recover(); r != nil {
+			if e, ok := r.(error); ok && strings.Contains(e.Error(), "synctest") {
+				raceEnable()
+				v = 0
+				return
+			}
+			if str, ok := r.(string); ok && strings.Contains(str, "synctest") {
+				raceEnable()
+				v = 0
+				return
+			}
+			panic(r)
+		}
+	}()
 	ch := make(chan uint64, 1)
 	m.Goid = Goid()
 	m.Reply = ch
 	s.Q <- m
-	v := <-ch
+	v = <-ch
 	raceEnable()
 	return v
 }
@@ -155,6 +173,11 @@ func post(k Kind, site int32, addr uintptr, arg uint64) {
 		return
 	}
 	raceDisable()
+	defer func() {
+		if r := recover(); r != nil {
+			raceEnable() // outside the bubble: see parkMsg
+		}
+	}()
 	s.Q <- Msg{Kind: k, Goid: Goid(), Site: site, Addr: addr, Arg: arg}
 	raceEnable()
 }
